@@ -9,9 +9,12 @@ cd $D || exit 2
 cp $O/demo_test.rs $D/$crate/tests/seed_demo_$n.rs
 pkg=grin_$crate
 cargo test -p $pkg --offline --test seed_demo_$n > $O/confirm_demo_with.log 2>&1; with=$?
-git stash -q -- $(git diff --name-only)  # stash the change only (demo file is untracked)
+# take the change out and put it back with patch files (git stash is shared by all worktrees of /repo: two
+# seed worktrees stashing at the same time would pop each other's change)
+git diff > $O/.confirm_change.diff
+git apply -R $O/.confirm_change.diff
 cargo test -p $pkg --offline --test seed_demo_$n > $O/confirm_demo_without.log 2>&1; without=$?
-git stash pop -q
+git apply $O/.confirm_change.diff
 rm -f $D/$crate/tests/seed_demo_$n.rs
 cargo test --workspace --no-fail-fast --offline > $O/confirm_suite_with.log 2>&1; suite=$?
 fails=$(grep -E "^test .* FAILED" $O/confirm_suite_with.log | grep -v test_store_indices | wc -l)
